@@ -3,7 +3,8 @@ label scheme, so every case is a small JSON-able dict and can be replayed."""
 import random, itertools, math
 import networkx as nx
 
-LABEL_SCHEMES = ['int', 'perm', 'neg', 'str', 'tuple', 'mixed', 'offset']
+LABEL_SCHEMES = ['int', 'perm', 'neg', 'str', 'tuple', 'mixed', 'offset', 'nested']
+CONTAINER_LIKE = ('tuple', 'mixed', 'nested')      # schemes whose labels are themselves iterables
 
 
 def label_fn(scheme, n, salt=0):
@@ -36,6 +37,11 @@ def label_fn(scheme, n, salt=0):
                 return (i, 'x')
             return frozenset([i, -i - 1])
         return f
+    if scheme == 'nested':
+        # labels that are iterables of other labels (a household node (0, 1) next to individuals 0 and 1, 'ab' next to 'a' and 'b') and
+        # falsy labels (0, '', (), frozenset()).  The library documents: if something is a node, it is treated as that single node
+        base = [0, 1, (0, 1), '', (), 'a', 'b', 'ab', frozenset(), frozenset([0, 1]), (1, 0), ((0, 1), 'a')]
+        return lambda i: base[i] if i < len(base) else ('n', i)
     raise ValueError(scheme)
 
 
